@@ -188,9 +188,9 @@ func (g *Gen) Pattern() map[string]interface{} {
 		vars = []string{"?x"} // force repeated variables
 	}
 	var p map[string]interface{}
-	if !g.inRule && g.R.Intn(12) == 0 {
-		// a variable as the (only) property name (fact searches only: an undocumented,
-		// "experimental" pattern form that the rule index does not handle reliably)
+	if g.R.Intn(12) == 0 {
+		// a variable as the (only) property name ("property variable"), in fact searches and in
+		// rules' when patterns
 		var v interface{} = g.scalar()
 		if g.R.Intn(2) == 0 {
 			v = "?v"
